@@ -23,7 +23,7 @@ EXPLANATION += (' ' + 'SCALE/operand-is-input: both PCM conversions scale their 
 TRUSTED = ['numpy and scipy.io.wavfile semantics']
 NOT_DECIDED = ['that int16 -> float32 -> int16 is the identity on all 65 536 values (float rounding + truncating astype)', 'scipy WAV encode/decode']
 ASSUMPTIONS = []
-FLOORS = {'SCALE': 3, 'CROP': 3, 'REPEAT': 3, 'STEREO': 3, 'WAV': 1}
+FLOORS = {'SCALE': 3, 'CROP': 3, 'REPEAT': 3, 'STEREO': 3, 'WAV': 2}
 
 
 def E(t):
@@ -137,9 +137,17 @@ def run(ctx):
   ok = any(dotted(c.func) == 'float_samples_to_int16' and norm_text(c.args[0]) == sw.params()[0] for c in U.calls_in(sw.node)) and \
       any((dotted(c.func) or '').endswith('wavfile.write') for c in U.calls_in(sw.node))
   ctx.ob('WAV/write-path', sw, sw.node, ok, 'WAV data is written from the int16 conversion of the samples' if ok else 'samples_to_wav_data does not write float_samples_to_int16(samples)')
+  prm = sw.params()[0]
+  reb = [st for st in U.walk_stmts(sw.node) for (tgt, _v, _o) in U.store_targets(st) if isinstance(tgt, ast.Name) and tgt.id == prm and
+         not (isinstance(st, ast.Assign) and isinstance(st.value, ast.Call) and dotted(st.value.func) in ('np.asarray', 'np.asanyarray', 'numpy.asarray') and
+              len(st.value.args) == 1 and norm_text(st.value.args[0]) == prm)]
+  ctx.ob('WAV/samples-unmodified', sw, reb[0] if reb else sw.node, not reb, 'the samples reach the int16 conversion as given' if not reb else
+         'samples_to_wav_data rebinds its samples before converting them (%s): some of the 65536 values no longer survive the WAV round trip' % norm_text(reb[0]),
+         construct='samples_to_wav_data converts its parameter as given')
 
 
 MUTANTS = [
+    Mutant('seed C20_c: samples clipped to [-1, 1] before the WAV is written', F, "  wav_io = io.BytesIO()\n  scipy.io.wavfile.write(wav_io, sample_rate, float_samples_to_int16(samples))", "  wav_io = io.BytesIO()\n  samples = np.clip(samples, -1.0, 1.0)\n  scipy.io.wavfile.write(wav_io, sample_rate, float_samples_to_int16(samples))", rule='WAV/samples-unmodified'),
     Mutant('seed C20_a: input clipped to [-1, 1] before scaling (-32768 no longer round-trips)', F, "  return (y * np.iinfo(np.int16).max).astype(np.int16)", "  y = np.clip(y, -1.0, 1.0)\n  return (y * np.iinfo(np.int16).max).astype(np.int16)", rule='SCALE/operand-is-input'),
     Mutant('input passed through np.asarray first (harmless)', F, "  return (y * np.iinfo(np.int16).max).astype(np.int16)", "  y = np.asarray(y)\n  return (y * np.iinfo(np.int16).max).astype(np.int16)", expect='silent'),
     Mutant('divide by 32768 one way only', F, "  return y.astype(np.float32) / np.iinfo(np.int16).max", "  return y.astype(np.float32) / 32768.0", rule='SCALE/same-constant'),
